@@ -270,14 +270,16 @@ func AddStandardFilters(fd FilterDictionary) { //nolint: gocyclo
 		if n > maxRegexpRepeat {
 			// the pattern below cannot express such counts
 			m := firstWords(s, n)
-			if m == "" {
+			if m == "" || strings.TrimSpace(strings.TrimPrefix(s, m)) == "" {
+				// fewer than n words, or exactly n: the string already fits
 				return s
 			}
 			return m + el
 		}
 		re := regexp.MustCompile(fmt.Sprintf(`^(?:\s*\S+){%d}`, n))
 		m := re.FindString(s)
-		if m == "" {
+		if m == "" || strings.TrimSpace(strings.TrimPrefix(s, m)) == "" {
+			// fewer than n words, or exactly n: the string already fits
 			return s
 		}
 		return m + el
